@@ -85,7 +85,7 @@ Set(s) == /\ vec' = s.vec /\ count' = s.count /\ curr' = s.curr
           /\ done' = s.done /\ nsub' = s.nsub /\ nframes' = s.nframes
 
 Reqs == 1..MaxReq
-Free == [r |-> 0, q |-> 0]                      \* an empty slot (None)
+Free == [r |-> 0, q |-> 0, x |-> XSt("na", 0)]  \* an empty slot (None)
 St(k, e) == [k |-> k, e |-> e]                  \* e = -1: no timer
 
 InitState ==
@@ -135,7 +135,8 @@ TimerDue(s) == /\ Up(s)
                /\ \/ s.state.k = "Active" /\ s.state.e >= s.rt
                   \/ s.state.k = "Idle" /\ s.state.e >= s.idle
 
-Pending(s) == {r \in Reqs : s.asked[r] # 0 /\ s.done[r] = <<>>}
+Finished(dn) == dn # <<>> /\ dn[Len(dn)].fin
+Pending(s) == {r \in Reqs : s.asked[r] # 0 /\ ~Finished(s.done[r])}
 
 \* Transport::error: every outstanding request gets the error, table drained
 ErrorAll(s, why) ==
@@ -158,7 +159,10 @@ InsertReq(s, req) ==
   LET st2 == IF s.state.k = "Active" /\ s.state.e >= 0 THEN s.state
              ELSE St("Active", 0)
       idx == InsertIdx(s)
-      s2  == QInsert([s EXCEPT !.state = st2], [r |-> req.r, q |-> req.q])
+      x0  == CASE QKind(req.q) = "axfr" -> XSt("AI", 0)
+               [] QKind(req.q) = "ixfr" -> XSt("II", 0)
+               [] OTHER -> XSt("na", 0)
+      s2  == QInsert([s EXCEPT !.state = st2], [r |-> req.r, q |-> req.q, x |-> x0])
   IN [s2 EXCEPT !.reqmsg = <<[id |-> idx, q |-> req.q, ka |-> s.keepalive]>>,
                 !.keepalive = FALSE,
                 !.sent[req.r] = idx]
@@ -171,9 +175,20 @@ DemuxOne(s, item) ==
   IN IF ~Occupied(s1, f.id) THEN s1                   \* no query with this ID: ignored
      ELSE LET slot == s1.vec[f.id + 1]
               s2   == QRemove(s1, f.id)
-              res  == IF IsAnswer(f, s.sent[slot.r], slot.q) THEN OkOut(f, item.n)
-                      ELSE ErrOut("wrongreply")
-              s3   == [s2 EXCEPT !.done[slot.r] = Append(@, res)]
+              multi == QKind(slot.q) # "single"
+              cs   == CheckStream(f, slot.x, s.sent[slot.r], slot.q)
+              res  == IF ~multi
+                      THEN <<IF IsAnswer(f, s.sent[slot.r], slot.q) THEN OkOut(f, item.n)
+                             ELSE ErrOut("wrongreply")>>
+                      ELSE <<IF cs.ans THEN PartOut(f, item.n) ELSE WrongPart>>
+                           \o (IF cs.eof THEN <<EofOut>> ELSE <<>>)
+              \* a transfer that has not ended is put back under the same ID
+              s2b  == IF multi /\ ~cs.eof
+                      THEN [s2 EXCEPT !.vec[f.id + 1] = [slot EXCEPT !.x = cs.x],
+                                      !.count = @ + 1,
+                                      !.curr = IF f.id = @ THEN @ + 1 ELSE @]
+                      ELSE s2
+              s3   == [s2b EXCEPT !.done[slot.r] = @ \o res]
           IN IF s3.count = 0
              THEN [s3 EXCEPT !.state = IF s3.idle = 0 THEN St("IdleTimeout", -1)
                                        ELSE St("Idle", 0)]
@@ -216,7 +231,11 @@ WriteArm(s) == IF s.wfail THEN Finish(ErrorAll(s, "write"), "WriteErr")
 RecvArm(s) == InsertReq([s EXCEPT !.chan = Tail(@)], Head(s.chan))
 
 \* arm 4, None: all Connection handles and request futures are gone
-SendersGone(s) == ~s.handles /\ Pending(s) = {}
+\* (a pending single-response request holds a Connection clone until it is
+\* resolved; a zone-transfer request gives its clone up once the request is
+\* in the channel, so an outstanding transfer does not keep run alive: it is
+\* ended with an error when the last handle goes)
+SendersGone(s) == ~s.handles /\ {r \in Pending(s) : QKind(s.asked[r]) = "single"} = {}
 DroppedArm(s) == Finish(s, "Dropped")
 
 --------------------------------------------------------------------------
@@ -317,13 +336,25 @@ Apply(s, o) == Quiesce(EnvOp(s, o))
 (*   messages with and without an error code; an error with an empty        *)
 (*   question but other records; a query (QR clear); an answer carrying an  *)
 (*   edns-tcp-keepalive option.                                             *)
-AlphabetOf(ids, qs, kas) ==
+AlphabetOf(ids, qs, kas, qvars) ==
        {Msg(id, TRUE, q, 0, TRUE, FALSE, -1)  : id \in ids, q \in qs}
   \cup {Msg(id, TRUE, q, 2, FALSE, FALSE, -1) : id \in ids, q \in qs}
   \cup {Msg(id, TRUE, NoQ, rc, FALSE, FALSE, -1) : id \in ids, rc \in {0, 2}}
   \cup {Msg(id, TRUE, NoQ, 2, TRUE, FALSE, -1) : id \in ids}
   \cup {Msg(id, FALSE, q, 0, FALSE, FALSE, -1) : id \in ids, q \in qs}
   \cup {Msg(id, TRUE, q, 0, TRUE, FALSE, k)  : id \in ids, q \in qs, k \in kas}
+  \* question 1 with one component changed: type, class, letter case (equal), QDCOUNT 2
+  \cup {Msg(id, TRUE, v, 0, TRUE, FALSE, -1) : id \in ids, v \in qvars}
+
+\* zone-transfer responses: for every ID, the request's question / an empty
+\* question section / another transfer question, and answer sections that
+\* walk check_stream: SOA, SOA + data, data, data + closing SOA, a complete
+\* small transfer, another serial, two serials, empty
+XfrRecsAll == {<<1>>, <<0>>, <<1, 0>>, <<0, 1>>, <<1, 0, 1>>, <<2>>, <<1, 2>>, <<1, 1>>, <<>>}
+XfrRecsFew == {<<1>>, <<0>>, <<0, 1>>, <<1, 0, 1>>, <<2>>}
+XfrAlphabetOf(ids, qs, recset) ==
+       {XfrMsg(id, q, 0, rs) : id \in ids, q \in qs \cup {NoQ}, rs \in recset}
+  \cup {XfrMsg(id, q, 2, <<>>) : id \in ids, q \in qs \cup {NoQ}}
 
 --------------------------------------------------------------------------
 (* Fine-grained actions (all interleavings) *)
@@ -340,6 +371,7 @@ InitPred ==
 Submit(r, q) == /\ handles /\ r = nsub + 1 /\ r \in Reqs
                 /\ Len(chan) < ChanCap
                 /\ Set(SubmitOp(Cur, r, q))
+SubmitMulti(r, q) == QKind(q) # "single" /\ Submit(r, q)
 DropHandles == handles /\ Set(DropOp(Cur))
 
 \* Transport::run: the task's own steps follow the biased order (Pick); the
@@ -367,7 +399,7 @@ Tick == ~TimerDue(Cur) /\ Set(TickOp(Cur))
 PeerSend(f) == peerOpen /\ nframes < MaxFrames /\ Set(PeerSendOp(Cur, f))
 
 Matches(f)  == Occupied(Cur, f.id) /\ IsAnswer(f, f.id, vec[f.id + 1].q)
-UsedBefore(id) == \E r \in Reqs : sent[r] = id /\ done[r] # <<>>
+UsedBefore(id) == \E r \in Reqs : sent[r] = id /\ Finished(done[r])
 
 PeerReply(f)     == f.qr /\ Matches(f) /\ PeerSend(f)
 WrongQuestion(f) == f.qr /\ Occupied(Cur, f.id) /\ ~Matches(f) /\ PeerSend(f)
@@ -394,16 +426,28 @@ Peer == \/ \E f \in Frames : \/ PeerReply(f) \/ WrongQuestion(f) \/ NotAResponse
 (* The property *)
 
 \* (a) what a caller is handed answers its own request
+\* (for a zone transfer: the first message handed over answers the request
+\* in full; later ones carry its ID - check_stream looks at nothing else,
+\* neither the QR bit nor the question section: see the report)
 OwnAnswerOf(s) ==
   \A r \in Reqs : \A k \in 1..Len(s.done[r]) :
-     s.done[r][k].ok => IsAnswer(s.done[r][k].f, s.sent[r], s.asked[r])
+     (s.done[r][k].ok /\ s.done[r][k].why = "response") =>
+        IF QKind(s.asked[r]) = "single"
+        THEN IsAnswer(s.done[r][k].f, s.sent[r], s.asked[r])
+        ELSE /\ s.done[r][k].f.id = s.sent[r]
+             /\ ((\A j \in 1..(k - 1) : ~(s.done[r][j].ok /\ s.done[r][j].why = "response"))
+                   => IsAnswerMulti(s.done[r][k].f, s.sent[r], s.asked[r]))
 
 \* (b) never more than one completion
-AtMostOnceOf(s) == \A r \in Reqs : Len(s.done[r]) <= 1
+\* a zone transfer is a sequence of parts closed by exactly one final item
+AtMostOnceOf(s) == \A r \in Reqs :
+  /\ QKind(s.asked[r]) = "single" => Len(s.done[r]) <= 1
+  /\ \A k \in 1..Len(s.done[r]) : s.done[r][k].fin => k = Len(s.done[r])
 
 \* (c) requests outstanding at the same time have different IDs on the wire,
 \* and no peer message is handed to two requests
-OkIdx(s) == UNION {{<<r, k>> : k \in {j \in 1..Len(s.done[r]) : s.done[r][j].ok}} : r \in Reqs}
+OkIdx(s) == UNION {{<<r, k>> : k \in {j \in 1..Len(s.done[r]) :
+                                          s.done[r][j].ok /\ s.done[r][j].why = "response"}} : r \in Reqs}
 NoCrossOf(s) ==
   /\ Cardinality({s.sent[r] : r \in InVec(s)}) = Cardinality(InVec(s))
   /\ Cardinality({s.done[rk[1]][rk[2]].n : rk \in OkIdx(s)}) = Cardinality(OkIdx(s))
@@ -418,7 +462,7 @@ SlotTableSoundOf(s) ==
   /\ \A i \in 1..Len(s.vec) : s.vec[i].r # 0 =>
         /\ s.sent[s.vec[i].r] = i - 1
         /\ s.asked[s.vec[i].r] = s.vec[i].q
-        /\ s.done[s.vec[i].r] = <<>>
+        /\ ~Finished(s.done[s.vec[i].r])
         /\ \A j \in 1..Len(s.vec) : j # i => s.vec[j].r # s.vec[i].r
 
 \* no pending request is forgotten: it is in the channel or in the table;
@@ -445,5 +489,5 @@ TimerArmed     == TimerArmedOf(Cur)
 \* the transport task and the clock keep running (the peer is bounded by
 \* MaxFrames, so it cannot restart the timer forever: see the report on
 \* demux_reply restarting the timer for unrelated messages)
-Completion == \A r \in Reqs : (asked[r] # 0) ~> (done[r] # <<>>)
+Completion == \A r \in Reqs : (asked[r] # 0) ~> Finished(done[r])
 =============================================================================
